@@ -146,7 +146,7 @@ def analyse(obs: Obs, prog):
     if len(inner) != 1:
         raise AnalysisError("Scan.generate: kernel generate call not found")
     inner = inner[0]
-    sub = ("call", ("attr", P("constraint"), "get_submap"), (cin[ic],), ())
+    sub = ("call", P("constraint"), (cin[ic],), ())
     obs.add({"C03", "C12"}, "IDX-ALIGN", "Scan.generate/submap", inner[2][1] == sub, derived=inner[2][1], expected="constraint.get_submap(iteration counter) - used before the increment", where=w)
     obs.add({"C12", "C03"}, "CARRY-THREAD", "Scan.generate/kernel-args", inner[2][2] == ("tuple", (cin[iv], ("elem", XS))), derived=inner[2][2], expected="(carried value, i-th slice)", where=w)
     obs.add({"C12", "C03"}, "CARRY-THREAD", "Scan.generate/carry-out", cout[iv] == mk_proj(retval_of(mk_proj(inner, 0)), 0), derived=cout[iv], expected="kernel retval[0] becomes the next carry", where=w)
@@ -168,7 +168,7 @@ def analyse(obs: Obs, prog):
     if len(inner) != 1:
         raise AnalysisError("Scan.assess: kernel assess call not found")
     inner = inner[0]
-    sub = ("call", ("attr", P("sample"), "get_submap"), (cin[ic],), ())
+    sub = ("call", P("sample"), (cin[ic],), ())
     obs.add({"C01", "C02", "C12"}, "IDX-ALIGN", "Scan.assess/submap", inner[2][0] == sub, derived=inner[2][0], expected="sample.get_submap(iteration counter)", where=w)
     obs.add({"C01", "C12"}, "CARRY-THREAD", "Scan.assess/kernel-args", inner[2][1] == ("tuple", (cin[iv], ("elem", XS))), derived=inner[2][1], expected="(carried value, i-th slice)", where=w)
     obs.add({"C01", "C12"}, "CARRY-THREAD", "Scan.assess/carry-out", cout[iv] == mk_proj(mk_proj(inner, 1), 0), derived=cout[iv], expected="kernel retval[0] becomes the next carry", where=w)
